@@ -28,10 +28,10 @@ impl Property for C08 {
         "C08"
     }
     fn rule(&self) -> String {
-        "Cases: copy_range(s..e) with s<=e<=len; split_off(i)/split(i) with i<=len; first()/last(); subject of any zoo type/length/provenance (for Bv: inline and heap-mode sources via the long-then-truncated and spare-capacity provenances). Enumerated: every (s,e) for n<=40 (quick)/140 (thorough) with three value classes on all 18 types (includes s=e and e=n); all values for n<=8 with every (s,e); every split point for every n<=min(C,140)/320. Oracle: list slice; result passes the observer battery; source unchanged (battery); appending the high part to the low part rebuilds the original. Non-trivial: copy_range with 0<s, e<n, s not word-aligned and the slice crossing a storage-word boundary; split with 0<i<n not word aligned. Distinct by hash of the case.".into()
+        "Cases: copy_range(s..e) with s<=e<=len; split_off(i)/split(i) with i<=len; first()/last(); subject of any zoo type/length/provenance (for Bv: inline and heap-mode sources via the long-then-truncated and spare-capacity provenances). Enumerated: every (s,e) for n<=40 (quick)/200 (thorough) with three value classes on all 19 types (includes s=e and e=n); all values for n<=8 with every (s,e); every split point for every n<=min(C,140)/320. Oracle: list slice; result passes the observer battery; source unchanged (battery); appending the high part to the low part rebuilds the original. Non-trivial: copy_range with 0<s, e<n, s not word-aligned and the slice crossing a storage-word boundary; split with 0<i<n not word aligned. Distinct by hash of the case.".into()
     }
     fn random_cases(&self, tier: Tier) -> u64 {
-        tier.pick(200000, 800000)
+        tier.pick(200000, 6400000)
     }
     fn strategy(&self, tier: Tier) -> BoxedStrategy<C08Case> {
         let cr = (arb_operand(tier), any::<u16>(), any::<u16>()).prop_map(|(a, f1, f2)| {
@@ -49,13 +49,13 @@ impl Property for C08 {
     }
     fn exhaustive_subspaces(&self, tier: Tier) -> Vec<String> {
         vec![
-            format!("every (s,e), s<=e<=n, for every n<={} (clipped to capacity) x three value classes x 18 types", tier.pick(40, 140)),
-            "all values for n<=8 x every (s,e) x 18 types".into(),
-            format!("every split point i<=n for every n<=min(capacity,{}) x three value classes x split_off/split x 18 types", tier.pick(140, 320)),
+            format!("every (s,e), s<=e<=n, for every n<={} (clipped to capacity) x three value classes x 19 types", tier.pick(40, 200)),
+            "all values for n<=8 x every (s,e) x 19 types".into(),
+            format!("every split point i<=n for every n<=min(capacity,{}) x three value classes x split_off/split x 19 types", tier.pick(140, 320)),
         ]
     }
     fn enumerate(&self, tier: Tier, sh: &mut Shard, f: &mut dyn FnMut(C08Case) -> bool) {
-        let nmax = tier.pick(40, 140);
+        let nmax = tier.pick(40, 200);
         for t in 0..NT {
             let c = fixed_cap(t).unwrap_or(nmax).min(nmax);
             for n in 0..=c {
